@@ -128,7 +128,7 @@ def get_finite_difference_matrix(
     if type(bc_params) is not list:
         bc_params = [bc_params, bc_params]
 
-    b = np.zeros(size**dim)
+    b = np.zeros(size)
 
     if bc[0] == 'periodic':
         assert bc[1] == 'periodic'
@@ -221,18 +221,21 @@ def get_finite_difference_matrix(
                     # -- modify B
                     b[iLine] = val * b_coeff[iCoeff] / n_coeff[iCoeff] * dx
 
-    # TODO: extend the BCs to higher dimensions
+    # extend to higher dimensions (same boundary data on all faces of a side)
     A_1d = A_1d.tocsc()
+    one = np.ones(size)
     if dim == 1:
         A = A_1d
     elif dim == 2:
         A = sp.kron(A_1d, sp.eye(size)) + sp.kron(sp.eye(size), A_1d)
+        b = np.kron(b, one) + np.kron(one, b)
     elif dim == 3:
         A = (
             sp.kron(A_1d, sp.eye(size**2))
             + sp.kron(sp.eye(size**2), A_1d)
             + sp.kron(sp.kron(sp.eye(size), A_1d), sp.eye(size))
         )
+        b = np.kron(b, np.kron(one, one)) + np.kron(np.kron(one, one), b) + np.kron(np.kron(one, b), one)
     else:
         raise NotImplementedError(f'Dimension {dim} not implemented.')
 
